@@ -131,6 +131,19 @@ QSec(t, h, side)    == Epoch1(t.kind) + t.unit * (h - 2) + Skew(t, h) + t.pausel
 Sec(t, h)           == QSec(t, h, 0)
 Nsec(kind, h)       == IF kind = "changesets" THEN 148547780 + (h % 8) * 100000007 ELSE 0
 
+\* A finer query grid below the second.  An odd h = 2n+1 stands for every time strictly between the states n and
+\* n+1 (whether they exist or not); besides the whole-unit rendering QSec these concrete times are the same
+\* abstract query:   after state n: +1 ns, +100 ms, the next whole second;
+\*                   before state n+1: -1 ns, the whole second state n+1 lies in (when it has a fractional part).
+\* Times are pairs <<sec, nsec>>; only those strictly between the two state times are kept.
+TimeOf(t, h)   == <<Sec(t, h), Nsec(t.kind, h)>>
+NormT(sec, ns) == IF ns < 0 THEN <<sec - 1, ns + 1000000000>>
+                  ELSE IF ns >= 1000000000 THEN <<sec + 1, ns - 1000000000>> ELSE <<sec, ns>>
+Earlier(a, b)  == a[1] < b[1] \/ (a[1] = b[1] /\ a[2] < b[2])
+FineTimes(t, h) == LET a == TimeOf(t, h - 1)   b == TimeOf(t, h + 1) IN
+  {x \in {NormT(a[1], a[2] + 1), NormT(a[1], a[2] + 100000000), <<a[1] + 1, 0>>, NormT(b[1], b[2] - 1), <<b[1], 0>>} :
+     Earlier(a, x) /\ Earlier(x, b)}
+
 \* civil date from seconds since 1970 (proleptic Gregorian, UTC)
 Civil(sec) ==
   LET days == sec \div 86400
